@@ -10,6 +10,12 @@ use crate::runner::Case;
 /// Number of selector kinds used by the expression and labels for every construct present.
 pub fn label_expr(e: &OpeningHoursExpression, case: &mut Case) -> u32 {
     let mut kinds = [false; 5];
+    if e.rules.len() > 16 {
+        case.label("more_than_16_rules");
+    }
+    if e.rules.len() > 32 {
+        case.label("more_than_32_rules");
+    }
     for r in &e.rules {
         let s = &r.day_selector;
         if !s.year.is_empty() {
